@@ -5,6 +5,7 @@ regenerated from flatten.go on every run; tied to the code by the `flatten` corr
 -/
 import APModel.Model.Flatten
 import APModel.Props.C10
+import APModel.Theory.Fields
 
 namespace APModel.Flatten
 open APModel APModel.Generated APModel.Recip
@@ -118,28 +119,6 @@ theorem C16_idem_list (h : IsEquiv iriEqv) (l r : List Item) (hr : flattenList l
   simp [List.map_map, Function.comp_def, C16_idem_item]
 
 /-! ### every other property is unchanged -/
-
-theorem get_set_other : ∀ (fs : Fields) (n m : String) (v : FVal), m ≠ n →
-    (fs.set n v).get? m = fs.get? m
-  | .nil, n, m, v, hne => by simp [Fields.set, Fields.get?, Ne.symm hne]
-  | .cons k w r, n, m, v, hne => by
-    by_cases hk : k = n
-    · subst hk
-      simp [Fields.set, Fields.get?, Ne.symm hne]
-    · by_cases hkm : k = m
-      · subst hkm; simp [Fields.set, hk, Fields.get?]
-      · simp [Fields.set, hk, Fields.get?, hkm, get_set_other r n m v hne]
-
-theorem get_erase_other : ∀ (fs : Fields) (n m : String), m ≠ n →
-    (fs.erase n).get? m = fs.get? m
-  | .nil, n, m, hne => by simp [Fields.erase, Fields.get?]
-  | .cons k w r, n, m, hne => by
-    by_cases hk : k = n
-    · subst hk
-      simp [Fields.erase, Fields.get?, Ne.symm hne, get_erase_other r k m hne]
-    · by_cases hkm : k = m
-      · subst hkm; simp [Fields.erase, hk, Fields.get?]
-      · simp [Fields.erase, hk, Fields.get?, hkm, get_erase_other r n m hne]
 
 theorem applyRow_frame (fs fs' : Fields) (row : String × String) (m : String) (hne : m ≠ row.1)
     (h : applyRow fs row = .ok fs') : fs'.get? m = fs.get? m := by
